@@ -20,6 +20,12 @@ def plan(tier, seed):
             gs.append(Group('DWTInverse[%s,%s]' % (m, wf), M.g_inverse_module, (2, m, wf),
                             functions=[('dwt.transform2d', 'DWTInverse.__init__'), ('dwt.transform2d', 'DWTInverse.forward')],
                             replay=rp('dwt_inverse', dim=2, mode=m, waveform=wf, none_level=0)))
+    # region of known finding F13: an absent level whose own extent is one less than the running low-pass
+    for m in MODES:
+        gs.append(Group('DWT1DInverse[%s,wavelet,region=absent-level-needs-unpad]' % m, M.g_inverse_module, (1, m, 'wavelet', True, True), finding='F13',
+                        functions=[('dwt.transform1d', 'DWT1DInverse.forward')], replay=rp('dwt_inverse', dim=1, mode=m, waveform='wavelet', none_level=1)))
+        gs.append(Group('DWTInverse[%s,tuple4,region=absent-level-needs-unpad]' % m, M.g_inverse_module, (2, m, 'tuple4', True, True), finding='F13',
+                        functions=[('dwt.transform2d', 'DWTInverse.forward')], replay=rp('dwt_inverse', dim=2, mode=m, waveform='tuple4', none_level=1)))
     gs += f1_groups_sfb()
     gs.append(Group('canary:sfb1d[zero]-shifted', G.g_sfb1d, ('zero', 3), {'canary': True}, canary=True))
     gs.append(Group('canary:sfb1d[periodization]-shifted', G.g_sfb1d, ('periodization', 2), {'canary': True}, canary=True))
